@@ -789,6 +789,8 @@ where
     let mut target_order = Vec::from_iter(0..targets.len());
     if ps.env().shuffle {
         target_order.shuffle(&mut rand::thread_rng());
+        #[cfg(feature = "verif-hooks")]
+        crate::verif::order_override(&mut target_order);
     }
 
     let should_build_func = move |ptx: &mut ProcessTransaction, path: &RedoPath| {
